@@ -911,6 +911,129 @@ var primLits = []struct{ lit, text string }{
 var errCtors = []string{"Error", "EvalError", "RangeError", "ReferenceError", "SyntaxError", "TypeError", "URIError"}
 var someStrs = []string{"", "x", "boo", "a: b", "Error", "TypeError", "m é", "with\nnewline", ": ", "0"}
 
+// genLife builds one `life` request: k errors at known positions, kept alive, every trace read afterwards.
+func genLife(r *h.Rng, mode string) string {
+	var b strings.Builder
+	limit := []int{10, 10, 0, 3, 5, 12, 2}[r.Intn(7)]
+	k := 2 + r.Intn(4)
+	if mode == "finally" {
+		k = 2
+	}
+	nl := func() {
+		for n := 1 + r.Intn(3); n > 0; n-- {
+			b.WriteString("\n")
+		}
+		for n := r.Intn(4); n > 0; n-- {
+			b.WriteString(" ")
+		}
+	}
+	type sc struct{ levels, raise string }
+	var scs []sc
+	b.WriteString("var errs = []; function idf9(){ return qqq9; }")
+	var starts []string // name of the outermost function of each chain ("" = depth 0)
+	var levelToks [][]string
+	for i := 1; i <= k; i++ {
+		depth := r.Intn(5)
+		if mode == "finally" || mode == "goerr" {
+			depth = 1 + r.Intn(5)
+		}
+		engine := r.Bool() || mode == "finally" || mode == "goerr"
+		var toks []string
+		var raise string
+		// innermost body
+		body := func() {
+			if mode == "finally" || mode == "goerr" {
+				raise = fmt.Sprintf("at:%d", b.Len()+1)
+				b.WriteString("zzz;")
+				return
+			}
+			if engine {
+				b.WriteString("try { ")
+				raise = fmt.Sprintf("at:%d", b.Len()+1)
+				b.WriteString("zzz; } catch (x) { return x; }")
+			} else {
+				b.WriteString("return new ")
+				raise = fmt.Sprintf("sb:id:%d", b.Len()+1)
+				b.WriteString(fmt.Sprintf("Error(\"m%d\");", i))
+			}
+		}
+		for j := depth; j >= 1; j-- { // innermost first in the text, so call sites are known when written
+			nl()
+			name := fmt.Sprintf("e%df%d", i, j)
+			b.WriteString("function " + name + "(){ ")
+			if j == depth {
+				body()
+			} else {
+				b.WriteString("return ")
+				toks = append([]string{fmt.Sprintf("d,id,e%df%d,%d,-,0,-,id", i, j+1, b.Len()+1)}, toks...)
+				b.WriteString(fmt.Sprintf("e%df%d();", i, j+1))
+			}
+			b.WriteString(" };")
+		}
+		levelToks = append(levelToks, toks)
+		if depth > 0 {
+			starts = append(starts, fmt.Sprintf("e%df1", i))
+		} else {
+			starts = append(starts, "")
+		}
+		scs = append(scs, sc{"", raise})
+		if depth == 0 { // created in global code
+			nl()
+			if engine {
+				b.WriteString(fmt.Sprintf("var er%d; try { ", i))
+				scs[i-1].raise = fmt.Sprintf("at:%d", b.Len()+1)
+				b.WriteString(fmt.Sprintf("zzz; } catch (x) { er%d = x; }", i))
+			} else {
+				b.WriteString(fmt.Sprintf("var er%d = new ", i))
+				scs[i-1].raise = fmt.Sprintf("sb:id:%d", b.Len()+1)
+				b.WriteString(fmt.Sprintf("Error(\"m%d\");", i))
+			}
+			b.WriteString(fmt.Sprintf(" errs.push(er%d);", i))
+		}
+	}
+	// the global code that starts the chains
+	switch mode {
+	case "finally":
+		nl()
+		b.WriteString("function outer(){ try { ")
+		first := fmt.Sprintf("d,id,e1f1,%d,-,0,-,id", b.Len()+1)
+		b.WriteString("e1f1(); } finally { try { e2f1(); } catch (x) {} } };")
+		nl()
+		outer := fmt.Sprintf("d,id,outer,%d,-,0,-,id", b.Len()+1)
+		b.WriteString("outer();")
+		levelToks[0] = append([]string{outer, first}, levelToks[0]...)
+		scs = scs[:1]
+		levelToks = levelToks[:1]
+	case "goerr":
+		for i := 1; i <= k; i++ {
+			nl()
+			b.WriteString(fmt.Sprintf("if (sel == %d) ", i))
+			levelToks[i-1] = append([]string{fmt.Sprintf("d,id,e%df1,%d,-,0,-,id", i, b.Len()+1)}, levelToks[i-1]...)
+			b.WriteString(fmt.Sprintf("e%df1();", i))
+		}
+	default:
+		for i := 1; i <= k; i++ {
+			if starts[i-1] == "" {
+				continue
+			}
+			nl()
+			b.WriteString(fmt.Sprintf("var er%d = ", i))
+			levelToks[i-1] = append([]string{fmt.Sprintf("d,id,e%df1,%d,-,0,-,id", i, b.Len()+1)}, levelToks[i-1]...)
+			b.WriteString(fmt.Sprintf("e%df1(); errs.push(er%d);", i, i))
+		}
+	}
+	nl()
+	line := fmt.Sprintf("life %s %d %s", mode, limit, hx(b.String()))
+	for i := range scs {
+		lt := "-"
+		if len(levelToks[i]) > 0 {
+			lt = strings.Join(levelToks[i], ";")
+		}
+		line += " " + lt + " " + scs[i].raise
+	}
+	return line
+}
+
 // genC19: C19_ONLY=<op> restricts the stream to one request type (debugging aid; unset in ./check).
 func genC19(c *h.Ctx) {
 	genAll(c)
@@ -1035,6 +1158,11 @@ func genAll(c *h.Ctx) {
 			}
 			c.Add(fmt.Sprintf("uthrow %s %s %s@%s", via, th.kind, t, hx(th.expr)), "uthrow:"+via)
 		}
+	}
+	// (3f) lifetimes: several errors alive at once, traces read after all were created / after later Runs / on a Copy / from Go
+	for i := 0; i < c.N(1500, 40000); i++ {
+		mode := []string{"stack", "stack2", "stackcopy", "finally", "goerr"}[r.Intn(5)]
+		c.Add(genLife(r, mode), "life:"+mode)
 	}
 	// (3e) positions through a file set of two files: every idx
 	for _, pair := range [][2]string{{"var a = 1;\nvar b = 2;", "x;\ny;"}, {"a", "b"}, {"", "zz\n"}, {"q\r\nw", ""}, {"1\n2\n3", "4\u20285"}} {
